@@ -200,7 +200,7 @@ func (n *nsNet) idxFromString(s string) int {
 
 func TestVerif_C39(t *testing.T) {
 	r := vmc.New("C39", "model_checking")
-	r.Rule = "all delivery interleavings (stateless DFS over the next link to deliver from) of 1-3 concurrent real SendControlRequest calls through one real transit, each issuer numbering its requests from 1; non-trivial = executions with at least two concurrent requests; outcomes = distinct (scenario, who answered whom)"
+	r.Rule = "all delivery interleavings (stateless DFS over the next link to deliver from) of 1-3 concurrent real SendControlRequest calls through one real transit, each issuer numbering its requests from 1; non-trivial = executions with at least two concurrent requests; outcomes = distinct (scenario, who answered whom); part F adds the fault event of a failing forward write, part G a forward write that parks (gate) while other peers' requests are handled at the relay and fails on release: non-trivial there = executions in which the relay allocated another id between park and release"
 	r.Assume("links FIFO and reliable; routes converged before the requests; callers run in their own goroutines and are awaited with count-based barriers")
 	var probe struct {
 		Kind string `json:"kind"`
@@ -209,6 +209,17 @@ func TestVerif_C39(t *testing.T) {
 		var fs c39FailScenario
 		r.ReplayInto(&fs)
 		c39RunFail(r, fs, vmc.NewReplayChooser(fs.Choices))
+		r.Add("states", 1)
+		r.Add("transitions", 1)
+		if err := r.Finish(); err != nil {
+			t.Fatal(err)
+		}
+		return
+	}
+	if probe.Kind == "stalled-write" {
+		var ss c39StallScenario
+		r.ReplayInto(&ss)
+		c39RunStall(r, ss, vmc.NewReplayChooser(ss.Choices))
 		r.Add("states", 1)
 		r.Add("transitions", 1)
 		if err := r.Finish(); err != nil {
@@ -239,6 +250,8 @@ func TestVerif_C39(t *testing.T) {
 	}
 	// part F: the relay's write to the next hop fails (fail_test.go)
 	c39FailPart(r)
+	// part G: the relay's write to the next hop stalls while other peers' requests are handled (stall_test.go)
+	c39StallPart(r)
 	if err := r.Finish(); err != nil {
 		t.Fatal(err)
 	}
